@@ -240,8 +240,21 @@ func (x *Exec) applyContract(st *State, site ssa.Instruction, fn *ssa.Function, 
 			post.vars["result"] = rv
 		}
 	}
-	for _, e := range c.Ensures {
-		x.assume(st, x.evalClause(post, e, name))
+	for i, e := range c.Ensures {
+		g := x.evalClause(post, e, name)
+		lbl := e.Label
+		if lbl == "" {
+			lbl = fmt.Sprint(i)
+		}
+		// a clause under a recorded finding is only available outside the finding's class
+		for _, f := range x.P.findingsFor(name) {
+			if f.Label == lbl {
+				if ex, err := parseCExpr(f.Except); err == nil {
+					g = Implies(Not(x.evalClause(post, &Clause{Expr: ex, Text: f.Except}, name)), g)
+				}
+			}
+		}
+		x.assume(st, g)
 	}
 	if c.Trusted != "" {
 		x.trust("trusted contract of " + name + ": " + c.Trusted)
